@@ -1,0 +1,169 @@
+//go:build verif
+// +build verif
+
+package rtree
+
+import (
+	"encoding/binary"
+	"math"
+)
+
+// This file is compiled only with the "verif" build tag. It gives external
+// verification harnesses read-only access to structural facts about a tree
+// that searches cannot reveal directly. It adds no behaviour to the package.
+
+// VerifIssue describes one structural oddity found by VerifCheck.
+type VerifIssue struct {
+	// Kind is one of "box-not-exact" (a parent entry's box is not the exact
+	// bound of its child node but still contains it), "box-not-containing" (a
+	// parent entry's box does not contain its child node's bound),
+	// "entry-count" (a node with fewer than 1 or more than maxEntries
+	// entries), "mixed-node" (a node holding both record and child entries),
+	// "count-mismatch" (number of records in leaves differs from Count()).
+	Kind string
+	// Depth of the node holding the entry (root = 0).
+	Depth int
+	// Box is the exact bound of the child node (for box issues), otherwise
+	// the zero Box.
+	Box Box
+	// RecordID is some record found under the affected entry, or -1.
+	RecordID int
+	// RecordBox is that record's box.
+	RecordBox Box
+	// Leaves is the number of records in leaves (for count-mismatch).
+	Leaves int
+}
+
+// VerifCheck walks the tree and reports structural oddities.
+func (t *RTree) VerifCheck() []VerifIssue {
+	var issues []VerifIssue
+	leaves := 0
+	var anyRecord func(n *node) (int, Box, bool)
+	anyRecord = func(n *node) (int, Box, bool) {
+		for i := 0; i < n.numEntries && i < len(n.entries); i++ {
+			e := n.entries[i]
+			if e.child == nil {
+				return e.recordID, e.box, true
+			}
+			if id, b, ok := anyRecord(e.child); ok {
+				return id, b, true
+			}
+		}
+		return -1, Box{}, false
+	}
+	// farRecord finds a record under n whose box is not inside outer.
+	var farRecord func(n *node, outer Box) (int, Box, bool)
+	farRecord = func(n *node, outer Box) (int, Box, bool) {
+		for i := 0; i < n.numEntries && i < len(n.entries); i++ {
+			e := n.entries[i]
+			if e.child == nil {
+				if !verifContains(outer, e.box) {
+					return e.recordID, e.box, true
+				}
+			} else if id, b, ok := farRecord(e.child, outer); ok {
+				return id, b, true
+			}
+		}
+		return -1, Box{}, false
+	}
+	var walk func(n *node, depth int)
+	walk = func(n *node, depth int) {
+		if n.numEntries < 1 || n.numEntries > maxEntries {
+			id, b, _ := anyRecord(n)
+			issues = append(issues, VerifIssue{Kind: "entry-count", Depth: depth, RecordID: id, RecordBox: b})
+		}
+		var nLeaf, nBranch int
+		for i := 0; i < n.numEntries && i < len(n.entries); i++ {
+			e := n.entries[i]
+			if e.child == nil {
+				nLeaf++
+				leaves++
+				continue
+			}
+			nBranch++
+			if e.child.numEntries >= 1 {
+				exact := calculateBound(e.child)
+				if exact != e.box {
+					is := VerifIssue{Kind: "box-not-exact", Depth: depth, Box: exact, RecordID: -1}
+					if !verifContains(e.box, exact) {
+						is.Kind = "box-not-containing"
+						is.RecordID, is.RecordBox, _ = farRecord(e.child, e.box)
+					} else {
+						is.RecordID, is.RecordBox, _ = anyRecord(e.child)
+					}
+					issues = append(issues, is)
+				}
+			}
+			walk(e.child, depth+1)
+		}
+		if nLeaf > 0 && nBranch > 0 {
+			id, b, _ := anyRecord(n)
+			issues = append(issues, VerifIssue{Kind: "mixed-node", Depth: depth, RecordID: id, RecordBox: b})
+		}
+	}
+	if t.root != nil {
+		walk(t.root, 0)
+	}
+	if leaves != t.count {
+		issues = append(issues, VerifIssue{Kind: "count-mismatch", RecordID: -1, Leaves: leaves})
+	}
+	return issues
+}
+
+func verifContains(outer, inner Box) bool {
+	return outer.MinX <= inner.MinX && outer.MinY <= inner.MinY &&
+		outer.MaxX >= inner.MaxX && outer.MaxY >= inner.MaxY
+}
+
+// VerifShape returns a canonical byte dump of the whole tree (structure,
+// boxes, record IDs and count). Two dumps are equal iff nothing in the tree
+// changed.
+func (t *RTree) VerifShape() []byte {
+	var out []byte
+	var u [8]byte
+	put := func(v uint64) {
+		binary.LittleEndian.PutUint64(u[:], v)
+		out = append(out, u[:]...)
+	}
+	putBox := func(b Box) {
+		put(math.Float64bits(b.MinX))
+		put(math.Float64bits(b.MinY))
+		put(math.Float64bits(b.MaxX))
+		put(math.Float64bits(b.MaxY))
+	}
+	var walk func(n *node)
+	walk = func(n *node) {
+		put(uint64(n.numEntries))
+		for i := 0; i < n.numEntries && i < len(n.entries); i++ {
+			e := n.entries[i]
+			putBox(e.box)
+			if e.child == nil {
+				out = append(out, 0)
+				put(uint64(e.recordID))
+			} else {
+				out = append(out, 1)
+				walk(e.child)
+			}
+		}
+	}
+	put(uint64(t.count))
+	if t.root == nil {
+		out = append(out, 0xff)
+	} else {
+		walk(t.root)
+	}
+	return out
+}
+
+// VerifDepth returns the number of levels in the tree (0 for an empty tree).
+func (t *RTree) VerifDepth() int {
+	d := 0
+	for n := t.root; n != nil; {
+		d++
+		if n.numEntries == 0 || n.entries[0].child == nil {
+			break
+		}
+		n = n.entries[0].child
+	}
+	return d
+}
